@@ -25,6 +25,19 @@ type loopInfo struct {
 	pcPre    Term
 }
 
+// rangeIndexAlloc returns the hidden index variable of a "for range" loop: the
+// builder increments it in the loop header.
+func (li *loopInfo) rangeIndexAlloc() *ssa.Alloc {
+	for _, in := range li.header.Instrs {
+		if s, ok := in.(*ssa.Store); ok {
+			if a, ok := s.Addr.(*ssa.Alloc); ok && a.Comment == "rangeindex" {
+				return a
+			}
+		}
+	}
+	return nil
+}
+
 // findLoops discovers natural loops and binds them to source ordinals.
 func (fr *Frame) findLoops(order []*ssa.BasicBlock) {
 	fr.loops = map[*ssa.BasicBlock]*loopInfo{}
@@ -353,9 +366,11 @@ func (fr *Frame) enterLoop(li *loopInfo, pre *State, pc Term) *State {
 	if li.spec != nil {
 		env := fr.specEnv(pre, pc)
 		env.pre = li.pre
+		fr.curRangeIdx = li.rangeIndexAlloc()
 		for _, inv := range li.spec.Invariants {
 			vc.obligeClause("inv-entry", inv.Label, site+":"+labelOr(inv.Label, "inv"), pc, env, inv)
 		}
+		fr.curRangeIdx = nil
 	}
 	cells, heaps, top, allocs := fr.loopWrites(li)
 	st := pre.clone()
@@ -441,9 +456,11 @@ func (fr *Frame) enterLoop(li *loopInfo, pre *State, pc Term) *State {
 	if li.spec != nil {
 		env := fr.specEnv(st, pc)
 		env.pre = li.pre
+		fr.curRangeIdx = li.rangeIndexAlloc()
 		for _, inv := range li.spec.Invariants {
 			vc.assumeClause(pc, env, inv)
 		}
+		fr.curRangeIdx = nil
 	}
 	vc.cover(site+":body", pc)
 	return st
@@ -459,9 +476,11 @@ func (fr *Frame) backEdge(li *loopInfo, st *State, guard Term) {
 	}
 	env := fr.specEnv(st, guard)
 	env.pre = li.pre
+	fr.curRangeIdx = li.rangeIndexAlloc()
 	for _, inv := range li.spec.Invariants {
 		vc.obligeClause("inv-step", inv.Label, site+":"+labelOr(inv.Label, "inv"), guard, env, inv)
 	}
+	fr.curRangeIdx = nil
 	if li.spec.HasMod && !li.modTop {
 		for _, h := range li.modHeaps {
 			if vc.heapInfo[h] == nil {
